@@ -3,3 +3,5 @@
 package smtp
 
 func verifBdatStart() {}
+
+func verifConnAccepted() {}
